@@ -167,7 +167,8 @@ PROP = dict(
          "-- x 7 point families x 6 weight families x initial partitions (random valid, one-sided, blocks, round robin) x max_iter "
          "in {0,1,2,3,5,8} x max_balance_iter in {0..4} x imbalance_tol in {0,0.01,1,5,50,1e9} x delta_threshold in {0,0.01,1,100} x "
          "erode / hilbert / mbr_early_break flags; EVERY case runs under pools 1,2,3,4,8,16 twice; the model (binary64, vm_compute) "
-         "is compared with all twelve final partitions when the input is integer valued, erode is off and the rotation matrix "
+         "is compared with all twelve final partitions and, through runs with max_iter = 0..max_iter-1, with the assignments after "
+         "every outer iteration, when the input is integer valued, erode is off and the rotation matrix "
          "recomputed by the harness equals the implementation's own box under every pool (ZCurve hook); non-trivial additionally "
          "needs max_iter >= 1 and max_balance_iter >= 1",
     class_names={0: "vnbest", 1: "vnfirst", 2: "kmeans2", 3: "kmeans3", 4: "fm", 5: "kl", 6: "arcswap",
@@ -187,8 +188,9 @@ PROP = dict(
         "(nalgebra symmetric_eigen + Householder + try_inverse) is an INPUT of the model (any matrix with at least one row; "
         "`try_inverse() = None` is a panic site outside the theorem), recomputed by the harness with the same nalgebra calls and "
         "validated per case against the box the implementation builds (ZCurve hook); f64::log / exp (erode) are arbitrary "
-        "functions in the theorems and not compared in the runs; model = code is checked on FINAL partitions only (no hook "
-        "exports k-means' iterations), translator: 4 literals + 26 guard / operator shapes (C02_kmeans_source_shape)",
+        "functions in the theorems and not compared in the runs; model = code is checked on the assignments after every outer "
+        "iteration (runs with smaller max_iter) and on the final partitions, not on influences / bounds themselves (no hook "
+        "exports them), translator: 4 literals + 26 guard / operator shapes (C02_kmeans_source_shape)",
         "k-means runs: usize overflow of `1 + max id` and more than 20 clusters (rayon's par_sort_by switches from insertion to "
         "merge sort: same result unless a distance is NaN) are not modelled",
         "the per-algorithm theorems for VnBest/VnFirst/FM/KL/ArcSwap are derived from the property theorems of Properties/C14, C07, C15, C05 "
